@@ -432,6 +432,12 @@ pub fn has_lineless_method(doc: &Doc) -> bool {
     methods_by_name(doc).iter().any(|(_, v)| v.iter().any(|(l, _)| l.is_none()))
 }
 
+/// some function name `Class#name` is yielded by more than one `<method>` on the same record
+/// (overloads): outside the property's quantifier "methods with names unique within their class"
+pub fn has_repeated_method_name(doc: &Doc) -> bool {
+    methods_by_name(doc).iter().any(|(_, v)| v.len() > 1)
+}
+
 /// two `<method>` elements yield the same function name on the same record and disagree on
 /// (line, executed): no single function can be what the property says of both
 pub fn overload_conflict(doc: &Doc) -> Option<String> {
